@@ -37,7 +37,7 @@ def main():
         res = detect(sdir, ALL if allc else [prop])
         return name, meta, prop, res
 
-    caught = missed = regress = 0
+    caught = missed = regress = retired = 0
     with cf.ThreadPoolExecutor(jobs if not allc else max(1, jobs // 2)) as ex:
         for name, meta, prop, res in ex.map(one, names):
             if "apply_err" in res:
@@ -45,6 +45,12 @@ def main():
                 regress += 1
                 continue
             own = prop in res and res[prop].get("rc") == 1 and bool(res[prop].get("violated"))
+            if meta.get("retired"):
+                # a later `fix:` commit made this change harmless (tools/reverify_demos.py): silence is the right answer now
+                retired += 1
+                print(f"{name:7s} {'retired: ' + ('STILL FLAGGED' if own else 'silent, as it should be'):28s}")
+                regress += bool(own)
+                continue
             was = meta.get("detection", {}).get("own_property_check_flags_it")
             errs = [k for k, v in res.items() if v.get("rc") not in (0, 1)]
             tag = "caught" if own else "MISSED"
@@ -68,7 +74,7 @@ def main():
                 with open(os.path.join(root, name, "meta.json"), "w") as f:
                     json.dump(meta, f, indent=1)
                     f.write("\n")
-    print(f"caught by own check: {caught}/{caught + missed}; regressions: {regress}")
+    print(f"caught by own check: {caught}/{caught + missed}; retired (harmless since a fix): {retired}; regressions: {regress}")
     return 1 if regress else 0
 
 
